@@ -25,7 +25,7 @@ entity User in [Group] {
   manager?: User, home: Group,
   addr: { city: String, zip?: Long }, oaddr?: { city: String, zip?: Long }
 } tags Long;
-entity Doc in [Folder] { owner: User, size: Long, label?: String } tags String;
+entity Doc in [Folder] { owner: User, size: Long, label?: String, name?: String } tags String;
 entity Folder in [Folder];
 action view, edit in [readWrite] appliesTo { principal: [User, Group], resource: [Doc, Folder], context: { ok: Bool, n?: Long, who?: User, rec: { a: Long, b?: String } } };
 action readWrite;
@@ -146,6 +146,7 @@ func buildEnvs() {
 						dattrs := types.RecordMap{"owner": uid("User", "u1"), "size": types.Long(5)}
 						if dv == 1 {
 							dattrs["label"] = types.String("L")
+							dattrs["name"] = types.String("doc")
 						}
 						d1 := types.Entity{UID: uid("Doc", "d1"), Parents: types.NewEntityUIDSet(uid("Folder", "f1")), Attributes: types.NewRecord(dattrs), Tags: types.NewRecord(dtags)}
 						f1 := types.Entity{UID: uid("Folder", "f1"), Parents: types.NewEntityUIDSet(uid("Folder", "root"))}
@@ -455,6 +456,62 @@ func guards() *core.Family {
 	}
 }
 
+// entity-type unions: `if c then A else B` over entity-typed operands of different
+// types (accepted in permissive mode only) gives a value whose type is a union; an
+// attribute (or tag) of the union is safe to read unguarded only if it is required
+// on EVERY member type (User.name is required, Doc.name optional, Group has none).
+func unions() *core.Family {
+	ents := []*Expr{Var("principal"), Var("resource"), path("context", "who"), path("resource", "owner"), L(Entity("User", "u2")), L(Entity("Doc", "d1")), L(Entity("Group", "g1"))}
+	conds := []*Expr{path("context", "ok"), Has(Var("principal"), "nick")}
+	attrs := []string{"name", "label", "nick", "owner", "size", "manager", "missing"}
+	type use struct {
+		name string
+		f    func(u *Expr) *Expr
+	}
+	var uses []use
+	for _, a := range attrs {
+		a := a
+		uses = append(uses,
+			use{"access:" + a, func(u *Expr) *Expr { return Bin(OEq, Access(u, a), L(Str("s"))) }},
+			use{"has&&access:" + a, func(u *Expr) *Expr { return Bin(OAnd, Has(u, a), Bin(OEq, Access(u, a), L(Str("s")))) }},
+			use{"access-long:" + a, func(u *Expr) *Expr { return Bin(OLt, Access(u, a), L(Long(1))) }},
+		)
+	}
+	uses = append(uses,
+		use{"getTag", func(u *Expr) *Expr { return Bin(OEq, Bin(OGetTag, u, L(Str("k"))), L(Long(1))) }},
+		use{"hasTag&&getTag", func(u *Expr) *Expr {
+			return Bin(OAnd, Bin(OHasTag, u, L(Str("k"))), Bin(OEq, Bin(OGetTag, u, L(Str("k"))), L(Long(1))))
+		}},
+		use{"hasTag&&getTag-like", func(u *Expr) *Expr {
+			return Bin(OAnd, Bin(OHasTag, u, L(Str("k"))), Like(Bin(OGetTag, u, L(Str("k"))), PatElem{Wild: true}))
+		}},
+		use{"in", func(u *Expr) *Expr { return Bin(OIn, u, L(Entity("Group", "g1"))) }},
+		use{"owner.name", func(u *Expr) *Expr { return Bin(OEq, Access(Access(u, "owner"), "name"), L(Str("s"))) }},
+		use{"manager.nick", func(u *Expr) *Expr { return Bin(OEq, Access(Access(u, "manager"), "nick"), L(Str("s"))) }},
+		use{"set-contains", func(u *Expr) *Expr { return Bin(OContains, SetLit(L(Entity("User", "u2")), L(Entity("Doc", "d1"))), u) }},
+	)
+	n := len(conds) * len(ents) * len(ents) * len(uses)
+	return &core.Family{
+		Name: "entity-type-unions",
+		Desc: fmt.Sprintf("(if c then A else B) for %d conditions x %d^2 entity-typed operands (variables, entity-typed attributes, literals of three types) x %d uses (attribute access unguarded / guarded on attributes required, optional or absent per member type; tags; in; nested access)", len(conds), len(ents), len(uses)),
+		N:    int64(n),
+		Run: func(t *core.T, i int64) {
+			x := int(i)
+			u := uses[x%len(uses)]
+			x /= len(uses)
+			b := ents[x%len(ents)]
+			x /= len(ents)
+			a := ents[x%len(ents)]
+			x /= len(ents)
+			e := u.f(If(conds[x], a, b))
+			if checkCond(t, "union:"+u.name, e, []bool{true}) {
+				t.Nontrivial()
+			}
+			t.SampleF(e.String)
+		},
+	}
+}
+
 // tag guards
 func tagGuards() *core.Family {
 	ents := []*Expr{Var("principal"), Var("resource"), path("resource", "owner"), path("principal", "manager"), L(Entity("User", "u2"))}
@@ -522,7 +579,7 @@ func Check() *core.Check {
 				return []*core.Family{{Name: "setup", Desc: "schema resolves", N: 1, Run: func(t *core.T, i int64) { t.Fail("harness-schema", schemaText, "resolves", e.Error()) }}}
 			}
 			sp := specs()
-			fams := []*core.Family{guards(), tagGuards(), depth1("depth1-unary", sp, leaves(), 1)}
+			fams := []*core.Family{guards(), tagGuards(), unions(), depth1("depth1-unary", sp, leaves(), 1)}
 			if tier == "thorough" {
 				fams = append(fams, depth1("depth1-binary", sp, leaves(), 2), depth1("depth1-if", gen.Ternary, leavesSmall(), 3))
 			} else {
